@@ -12,6 +12,17 @@ Per input (every generated / seed program that parses without errors), on the RE
           the real edit lists with marks from the real lexer;
   oracle  (no model) position-free `{:#?}` dump of parse(input) == dump of parse(output) modulo
           optional commas, output has no parse errors, comment lists equal.
+
+Keys (complete fixed set; a failure maps to exactly one, by mechanism):
+  C17/format-hook-failed                   the formatter does not return on a parseable input
+  C17/<phase>-changes-tokens               <phase> in wrap, spans, indent, blanks, types, spacing, final = the first
+                                           phase whose output no longer lexes to the input's tokens and comments;
+    ... except, when a line of the input starts inside a string literal:
+  C17/indent-edit-inside-string-token      (phase indent)   C17/blank-lines-inside-string-token  (phase blanks)
+  C17/span-edit-with-string-token          (phase spans)
+  C17/ast-differs-with-same-tokens         every phase keeps tokens and comments, the parser's tree still differs
+  C17/line-edit-outside-gaps               tree unchanged, but a real line edit rewrites token bytes (editsInGaps false)
+  C17/span-edit-outside-gaps               tree unchanged, but real span edits overlap a token or each other
 """
 import re
 
